@@ -63,6 +63,16 @@ func (sm *SeatManager) renewSeatStatus() error {
 	seats := origSeats
 
 	if sm.getPlayableSeatCount() == 2 {
+		// The seats behind the other player are opened for this hand anyway. Open them
+		// first, so that a player waiting there is counted when positions are decided
+		if _, idx := sm.findActivePlayer(origSeats[1:]); idx >= 0 {
+			for _, s := range origSeats[idx+2:] {
+				s.IsActive = true
+			}
+		}
+	}
+
+	if sm.getPlayableSeatCount() == 2 {
 		// dealer is SB as well
 		sm.sb = sm.dealer
 	} else {
